@@ -165,17 +165,7 @@ func run(r *vt.Run, t vt.TB, s spec) {
 			fail("open", "NonRowidTable(w): %v", err)
 			return
 		}
-		var attrs []refcmp.KeyCol
-		for i := 0; i < w.Spec.PKCols; i++ {
-			a := refcmp.KeyCol{}
-			if i < len(w.Spec.PKColl) {
-				a.Collate = w.Spec.PKColl[i]
-			}
-			if i < len(w.Spec.PKDesc) {
-				a.Desc = w.Spec.PKDesc[i]
-			}
-			attrs = append(attrs, a)
-		}
+		attrs := w.PKKey // (DESC is ignored in files of a schema format before 4)
 		tgts = append(tgts, tgt{"w", ix, w.Entries, attrs, &[3][]int{w.IShape.InteriorEntry, w.IShape.LeafFirst, w.IShape.LeafLast}, w.IShape.Depth})
 		// its secondary indexes (entries end in primary key columns, not a rowid)
 		for name, bi := range w.Indexes {
